@@ -24,13 +24,15 @@ def logical(W):
     return res
 
 
-def reexpress(r, W):
+def reexpress(r, W, force_pods=None):
     W2 = copy.deepcopy(W)
     out = []
     how = []
     for w in W2['workloads']:
         ns, name = (w['ns'], w['owner']['name']) if (w['kind'] == 'Pod' and w.get('owner')) else (w['ns'], w['name'])
         x = r.random()
+        if force_pods is not None and (ns, name) == force_pods:
+            x = 0.7          # this one becomes bare Pods sharing an owner
         if x < 0.55:
             k = r.choice(KINDS)
             out.append({'kind': k, 'ns': ns, 'name': name, 'labels': w['labels'], 'ports': w['ports'], 'replicas': r.choice([None, 0, 1, 2, 5]), 'owner': None,
@@ -106,7 +108,18 @@ def main(tier):
                     if not any(w['ns'] == base['ns'] and w['name'] == base['name'] + '-1' for w in W['workloads']):
                         W['workloads'].append({'kind': run.rng.choice(['Deployment', 'StatefulSet', 'ReplicaSet']), 'ns': base['ns'], 'name': base['name'] + '-1',
                                                'labels': {'app': 'sfx'}, 'ports': [], 'replicas': run.rng.choice([None, 1]), 'owner': None})
-                W2, how = reexpress(run.rng, W)
+                force = None
+                if cid % 10 in (1, 4) and W['workloads']:
+                    # one port number under two protocols and two names, the second one named by a policy: a controller's pod template and
+                    # bare Pods with the same containers declare the same ports
+                    base = run.rng.choice(W['workloads'])
+                    if base['kind'] == 'Pod':
+                        base['kind'], base['owner'] = run.rng.choice(['Deployment', 'StatefulSet', 'DaemonSet', 'Job']), None
+                    base['ports'] = [{'port': 53, 'proto': 'UDP', 'name': 'dns'}, {'port': 53, 'proto': 'TCP', 'name': 'metrics'}]
+                    W['netpols'].append({'ns': base['ns'], 'name': 'npsamenum', 'podSelector': {}, 'policyTypes': ['Ingress'],
+                                         'ingress': [{'from': [{'namespaceSelector': {}}], 'ports': [{'port': 'metrics', 'protocol': 'TCP'}]}]})
+                    force = (base['ns'], base['name'])
+                W2, how = reexpress(run.rng, W, force_pods=force)
                 info[cid] = ('reexpress', how)
                 pairs.append((cid, W, W2))
             res = meta.run_pairs(h, pairs)
